@@ -85,6 +85,9 @@ pub const WORKER_EXIT: u32 = 31;
 /// The blocking pool tried to reserve a worker slot (a = counter after the attempt,
 /// b = 1 when the slot was reserved, 0 when the limit was reached).
 pub const POOL_RESERVE: u32 = 32;
+/// A pool thread has sent the result of the operation to the driver's completed
+/// channel and called the driver's waker (the last thing it does for the operation).
+pub const BLOCKING_WOKEN: u32 = 33;
 /// A buffer-pool buffer changed hands (a = buffer id, b = new owner code).
 pub const POOL_BUF: u32 = 40;
 
